@@ -114,16 +114,19 @@ Definition hw_run (a : algo) (d : Z) (cs : list cycle) : Z :=
 (* combinational outputs *)
 Definition hw_crc (a : algo) (reg : Z) : Z :=
   Z.lxor (if refout a then rev_bits reg (cw a) else reg) (xorout a).
-Definition hw_match (a : algo) (reg : Z) : bool :=
-  (if refout a then rev_bits reg (cw a) else reg) =? residue a.
+(* match_detected against a precomputed residue (self._residue is computed once in __init__) *)
+Definition hw_match_r (a : algo) (res reg : Z) : bool :=
+  (if refout a then rev_bits reg (cw a) else reg) =? res.
+Definition hw_match (a : algo) (reg : Z) : bool := hw_match_r a (residue a) reg.
 
 (* (crc, match_detected) observed after every clock edge *)
 Definition hw_trace (a : algo) (d : Z) (cs : list cycle) : list (Z * bool) :=
   let FG := matrices a d in
+  let res := residue a in
   let fix go reg cs :=
     match cs with
     | [] => []
-    | c :: r => let reg' := hw_next a d FG reg c in (hw_crc a reg', hw_match a reg') :: go reg' r
+    | c :: r => let reg' := hw_next a d FG reg c in (hw_crc a reg', hw_match_r a res reg') :: go reg' r
     end in
   go (init a) cs.
 
